@@ -391,6 +391,10 @@ def check(ctx):
     nothing_found_is_announced(ctx, repo, "I11")
     complete_only_with_a_block(ctx, repo, "I1")
     connect_bracket_under_reset(ctx, repo, "I5")
+    # a reset always lands in IDLE - also after the endpoint died on its own: the spa's disconnect, which the reset awaits
+    # before it clears facade / spa / descriptors, must complete then (C10.R1's scenario borrowed)
+    from .c10 import teardown_after_endpoint_loss as _tael
+    _tael(ctx.borrowed("I6", "C10"), repo, "R1")
     healthy = len(state_rows) >= 10 and len(raise_rows) >= 6
     ctx.count("I9:switch-read-as-ladder", int(healthy))
     if not healthy:
